@@ -209,6 +209,9 @@ func envU64(name string, def uint64) uint64 {
 var PanicProp = map[string]bool{}
 
 func (sp *Spec) execOnce(t *testing.T, s Schedule) *Outcome {
+	// No collection during a run (finalizers of abandoned snapshot contexts must not fire at
+	// arbitrary points) unless memory gets tight.
+	debug.SetMemoryLimit(3 << 30)
 	gcOld := debug.SetGCPercent(-1)
 	out, pv, stack := ExecInBubble(t, func() *Outcome { return sp.Exec(s) })
 	debug.SetGCPercent(gcOld)
